@@ -11,7 +11,7 @@ package verifspec
 //@ extern github.com/bytedance/gopkg/lang/dirtmake.Bytes
 //@   params n, c
 //@   requires 0 <= n && n <= c
-//@   ensures len(b) == n && cap(b) == c && fresh(b) && offset(b) == 0 && rsize(region(b)) == c
+//@   ensures len(b) == n && cap(b) == c && fresh(b) && writable(b) && offset(b) == 0 && rsize(region(b)) == c
 //@   assigns \nothing
 
 //@ iface error.Error
